@@ -625,12 +625,23 @@ fn ack_run(server: bool, w: u32, sizes: &[usize], rewin: Option<(usize, u32)>) -
     use rml_rtmp::messages::{MessagePayload, RtmpMessage};
     rml_rtmp::sessions::verif_hooks::set_initial_uptime_ms(Some(0));
     let mut peer = ChunkSerializer::new();
+    // the window announcement comes first on the wire, so it is serialized first
+    let wm = { let p = RtmpMessage::WindowAcknowledgement { size: w }.into_message_payload(RtmpTimestamp::new(0), 0).unwrap(); peer.serialize(&p, false, false).unwrap().bytes };
     // padding: a long stream of small unknown-type messages (type 22) on stream 9: neither session reacts with packets
     let total: usize = sizes.iter().sum::<usize>() + 64;
     let mut pad = vec![];
     let mut boundaries = vec![0usize];
+    // … mixed with the message kinds that make a session raise an event but return no packet (the peer's own
+    // acknowledgements, ping responses, aborts): every received byte counts, whatever it belongs to
+    let mut k = 0usize;
     while pad.len() < total + 400 {
-        let m = MessagePayload { timestamp: RtmpTimestamp::new(0), type_id: 22, message_stream_id: 9, data: Bytes::from(vec![7u8; 50]) };
+        let m = match k % 5 {
+            1 => MessagePayload { timestamp: RtmpTimestamp::new(0), type_id: 3, message_stream_id: 0, data: Bytes::from(vec![0u8, 0, 3, 232]) },
+            3 => MessagePayload { timestamp: RtmpTimestamp::new(0), type_id: 4, message_stream_id: 0, data: Bytes::from(vec![0u8, 7, 0, 0, 0, 9]) },
+            4 => MessagePayload { timestamp: RtmpTimestamp::new(0), type_id: 2, message_stream_id: 0, data: Bytes::from(vec![0u8, 0, 0, 77]) },
+            _ => MessagePayload { timestamp: RtmpTimestamp::new(0), type_id: 22, message_stream_id: 9, data: Bytes::from(vec![7u8; 50]) },
+        };
+        k += 1;
         pad.extend_from_slice(&peer.serialize(&m, false, false).unwrap().bytes);
         boundaries.push(pad.len());
     }
@@ -654,7 +665,6 @@ fn ack_run(server: bool, w: u32, sizes: &[usize], rewin: Option<(usize, u32)>) -
         Ok(acks)
     };
     // the call that delivers the window: nothing is counted in it (the window is not known before the call)
-    let wm = { let p = RtmpMessage::WindowAcknowledgement { size: w }.into_message_payload(RtmpTimestamp::new(0), 0).unwrap(); peer.serialize(&p, false, false).unwrap().bytes };
     match feed(&mut sess, &wm) { Ok(a) if a.is_empty() => {}, Ok(_) => return "! FAIL acknowledgement-in-the-call-that-delivered-the-window".into(), Err(e) => return format!("! FAIL error {}", e) }
     let mut since: u64 = 0;
     let mut win = w as u64;
